@@ -46,6 +46,16 @@ def _helper_of(call: ast.Call, fn, mod) -> Optional[Tuple[object, bool]]:
         q = f"{fn.qualname}.<locals>.{f.id}"
         if q in mod.functions:
             return mod.functions[q], False
+        # a plain function imported from another module of the package (`from ..visit.x import render_y`)
+        imp = getattr(mod, "imports", {}).get(f.id)
+        if imp and imp[1]:
+            import sa.model as _m
+
+            repo = _m.CURRENT_REPO
+            if repo is not None:
+                tm = repo.modules.get(imp[0]) or repo.modules.get("pyopenapi_gen." + imp[0])
+                if tm is not None and imp[1] in tm.functions and "." not in tm.functions[imp[1]].qualname:
+                    return tm.functions[imp[1]], False
     return None
 
 
